@@ -13,7 +13,7 @@ from sympy.polys.rings import ring
 from sympy import QQ
 from . import dag as dagm
 
-TR_OPS = ('sqrt', 'sin', 'cos', 'atan2', 'tan', 'asin', 'acos', 'atan', 'exp', 'log', 'cbrt', 'round')
+TR_OPS = ('sqrt', 'sin', 'cos', 'atan2', 'tan', 'asin', 'acos', 'atan', 'exp', 'log', 'cbrt', 'round', 'abs')
 
 class CFError(Exception):
     pass
@@ -30,7 +30,7 @@ class Canon:
             if kind == 'unitq' and all(nodes[j].op == 'var' for j in ids): leads.append(ids[3])
             elif kind == 'unitc' and all(nodes[j].op == 'var' for j in ids): leads.append(ids[0])
         leads = [l for l in leads if l in vs]
-        rank = {'sqrt': 0, 'cbrt': 0, 'sin': 1, 'cos': 1, 'tan': 1}
+        rank = {'sqrt': 0, 'abs': 0, 'cbrt': 0, 'sin': 1, 'cos': 1, 'tan': 1}
         tr.sort(key=lambda i: (rank.get(nodes[i].op, 2), -i))
         self.atoms = tr + leads + [v for v in vs if v not in leads]
         if not self.atoms:
@@ -135,10 +135,10 @@ class Canon:
             if m % 2: inside = inside * f
         return (outside, inside)
 
-    def do_sqrt(self, i, a):
+    def do_sqrt(self, i, a, value=None):
         R = self.R
-        n_, d_ = self.val[a]
-        self.nonneg.append((n_, d_))
+        n_, d_ = self.val[a] if value is None else value
+        if value is None: self.nonneg.append((n_, d_))
         # sqrt(n/d) = sqrt(n*d)/d   (d != 0 is a separate obligation; sign of d handled through |d|)
         if d_ != 1:
             sp = self._split_square(self.red(n_ * d_))
@@ -276,6 +276,9 @@ class Canon:
             return self.divv(val[a], val[b])
         if op == 'neg': return self.negv(val[a])
         if op == 'sqrt': return self.do_sqrt(i, a)
+        if op == 'abs':
+            self.axioms.add('|x| = sqrt(x^2)')
+            return self.do_sqrt(i, a, value=self.mulv(val[a], val[a]))
         if op == 'atan2':
             y, x = val[a], val[b]
             if self.iszero(y) and x[0].is_ground and x[1].is_ground and x[0].LC > 0:
